@@ -224,12 +224,11 @@ fn decode_spec_step<const N: usize>(kinds: u8) {
         }
         Err(InvalidPacketNumber::TooLarge) => panic!("decode_pn never reports TooLarge"),
     }
-    kani::cover!(matches!(r, Ok(p) if p >= next && nbits == 16), "new number, 2-byte encoding");
     kani::cover!(matches!(r, Ok(p) if p > next + 70000), "jumps far ahead");
     kani::cover!(N < 2 || matches!(r, Ok(p) if p < next), "fills a hole");
     kani::cover!(N == 0 || matches!(r, Err(InvalidPacketNumber::Duplicate)), "duplicate");
     kani::cover!(matches!(r, Err(InvalidPacketNumber::TooOld)), "too old");
-    kani::cover!(N > 0 || (off > (1u64 << 40) && matches!(r, Ok(p) if p == off)), "drained window: next number accepted");
+    kani::cover!(N > 0 || (off > (1u64 << 40) && nbits == 16 && matches!(r, Ok(p) if p == off)), "drained window: next number accepted, 2-byte encoding");
     core::mem::forget(j);
 }
 
@@ -242,13 +241,13 @@ fn c07_j_rcvd_decode_spec_n0() {
 #[kani::proof]
 #[kani::unwind(10)]
 fn c07_j_rcvd_decode_spec_n1() {
-    decode_spec_step::<1>(4);
+    decode_spec_step::<1>(3);
 }
 
 #[kani::proof]
 #[kani::unwind(10)]
 fn c07_j_rcvd_decode_spec_n2() {
-    decode_spec_step::<2>(4);
+    decode_spec_step::<2>(3);
 }
 
 #[kani::proof]
@@ -274,9 +273,7 @@ fn sender_contract_checks<const N: usize>(j: &mut RcvdJournal, pre: &Pre<N>) {
     let r = j.decode_pn(wire);
     assert!(r == Ok(pn), "a number a conforming sender puts on the wire is reconstructed");
     kani::cover!(nbits == 16 && pn == next + 32766, "2-byte encoding, far end of its range");
-    kani::cover!(nbits == 24, "3-byte encoding");
-    kani::cover!(nbits == 32 && pn > next + (1 << 30), "4-byte encoding, jump > 2^30");
-    kani::cover!(pn > (1u64 << 61), "large packet number");
+    kani::cover!(nbits == 32 && pn > next + (1 << 30) && pn > (1u64 << 61), "4-byte encoding, jump > 2^30, large packet number");
 
     // the clause as the RFC states it: ANY number in (largest, largest + 2^15] truncated to 16 bits
     let pn2: u64 = kani::any();
@@ -292,7 +289,6 @@ fn sender_contract_step<const N: usize>(kinds: u8) {
     sender_contract_checks(&mut j, &pre);
     check_unchanged(&j, &pre, 0);
     kani::cover!(N > 0 || pre.off > 5, "drained window (offset > 0, no record)");
-    kani::cover!(N > 0 || pre.off == 0, "fresh journal");
     core::mem::forget(j);
 }
 
@@ -305,13 +301,13 @@ fn c07_j_rcvd_sender_contract_n0() {
 #[kani::proof]
 #[kani::unwind(10)]
 fn c07_j_rcvd_sender_contract_n1() {
-    sender_contract_step::<1>(4);
+    sender_contract_step::<1>(3);
 }
 
 #[kani::proof]
 #[kani::unwind(10)]
 fn c07_j_rcvd_sender_contract_n3() {
-    sender_contract_step::<3>(4);
+    sender_contract_step::<3>(3);
 }
 
 // ---- c07_j_rcvd_after_drain ----------------------------------------------------------------------
@@ -354,8 +350,7 @@ fn after_drain_step<const N: usize>() {
     if want < pre.off + dropped as u64 {
         assert!(r == Err(InvalidPacketNumber::TooOld), "numbers the window has slid past are refused");
     }
-    kani::cover!(dropped == N, "window completely drained by rotate_queue");
-    kani::cover!(dropped == N && want + 1 == pre.next(), "the last forgotten number arrives again");
+    kani::cover!(dropped == N && want + 1 == pre.next(), "window completely drained by rotate_queue, the last forgotten number arrives again");
     kani::cover!(dropped == 0, "nothing to forget");
     core::mem::forget(j);
 }
@@ -378,7 +373,7 @@ fn c07_j_rcvd_after_drain_n3() {
 /// decode_pn -> on_rcvd_pn -> decode_pn of ANY second encoding: the registered number is never
 /// accepted again; the high-water mark is max(old, pn + 1). The jump is kept inside the container
 /// model's capacity (pn < offset + GROW); larger jumps only add Empty placeholders (C04's subject).
-const GROW: u64 = 5;
+const GROW: u64 = 4;
 
 fn accept_once_step<const N: usize>() {
     let (mut j, pre) = any_journal::<N>(3);
@@ -410,8 +405,7 @@ fn accept_once_step<const N: usize>() {
     if let Ok(p2) = r2 {
         assert!(p2 == want2 && pre.kind_at(p2) == EMPTY, "still exact for every other number");
     }
-    kani::cover!(want2 == pn, "second arrival decodes to the registered number");
-    kani::cover!(pn > pre.next(), "registration left a gap");
+    kani::cover!(want2 == pn && pn > pre.next(), "registration left a gap; second arrival decodes to the registered number");
     kani::cover!(N < 2 || pn < pre.next(), "registration filled a hole");
     kani::cover!(r2.is_ok(), "another number accepted afterwards");
     core::mem::forget(j);
